@@ -11,8 +11,8 @@ rm -rf /tmp/mut/_keep_$id; cp -r _seeded /tmp/mut/_keep_$id
 git checkout -q -- . ; git clean -fdq -e _seeded
 git apply _seeded/patch.diff || { echo "patch does not apply to pinned tree"; exit 2; }
 democmd=$(python3 -c "import json;print(json.load(open('_seeded/meta.json'))['demo_cmd'])")
-echo "== suite with patch"; (go build ./... && go test -vet=off -count=1 -timeout 25m ./... 2>&1 | grep -v '^ok' ); suite=$?
-go test -vet=off -count=1 -timeout 25m ./... >/tmp/mut/_suite_$id.log 2>&1; suite=$?
+echo "== suite with patch"; go build ./... && go test -vet=off -count=1 -timeout 25m ./... >/tmp/mut/_suite_$id.log 2>&1; suite=$?
+grep -v '^ok' /tmp/mut/_suite_$id.log | head -20
 echo "suite exit=$suite"
 echo "== demo with patch (must fail): $democmd"; (eval "$democmd") >/tmp/mut/_demo_with_$id.log 2>&1; dw=$?; tail -5 /tmp/mut/_demo_with_$id.log; echo "exit=$dw"
 # remove the patch again (no git stash: refs/stash is shared by all worktrees of /repo)
